@@ -10,6 +10,10 @@ def jobs(tier):
                            "conf": {"n": n, "policy": policy, "identity": ident}, "_obligation": "O1+O2", "_covers": ["streamed"], "unwind": 30})
     for n in ((1, 2) if tier == "quick" else (1, 2, 3)):
         js.append({"id": f"O3.show-deleted.n{n}", "func": "VerifH_C10_ShowDeleted", "conf": {"n": n}, "_obligation": "O3", "_covers": ["fetched"], "unwind": 60})
+    for n in ((2,) if tier == "quick" else (2, 3)):
+        for deleted in (0, 1):
+            js.append({"id": f"O3.stack.n{n}.show-deleted{deleted}", "func": "VerifH_C10_Stack", "conf": {"n": n, "deleted": deleted},
+                       "_obligation": "O3", "_covers": ["fetched"], "unwind": 80})
     js.append({"id": "O2.no-caching", "func": "VerifH_C10_NoCaching", "conf": {}, "_obligation": "O2", "_covers": ["ran"]})
     js.append({"id": "twin", "func": "VerifH_C10_Reach", "conf": {}, "_obligation": "vacuity", "_expect": "twin", "_covers": ["end"]})
     return js
@@ -17,7 +21,7 @@ def jobs(tier):
 
 PROPERTY = {
     "id": "C10",
-    "suites": [{"name": "permissioned", "pkg": "internal/db/fetcher", "files": ["zz_verif_c03.go", "zz_verif_c10.go"],
+    "suites": [{"name": "permissioned", "pkg": "internal/db/fetcher", "files": ["zz_verif_c03.go", "zz_verif_c07.go", "zz_verif_c10.go"],
                 "common": ["intrinsics", "kvmodel", "dagenv"], "jobs": jobs, "unwind": 30,
                 "overrides": {"github.com/sourcenetwork/defradb/client.CborNil": "bytes:f6"}}],
     "bounds": {"documents in the scan": "2-3 (thorough 4)", "per document": "registered / allowed / IsDocRegistered error / CheckDocAccess error all symbolic", "policy": "present or absent", "identity": "none or present"},
